@@ -11,7 +11,10 @@
       C01_ebsim_trace_coherent           proved: configuration i holds the first i symbols and processed corners
       C01_ebsim_encoder_history          proved, ALL symbols (C, S, L, R, E), every well-formed table: what the encoder saw at
                                          each symbol (gate / right / left face visited or not, the next processed corner, for
-                                         C: the tip vertex interior and fresh), in index form over its OUTPUT; no S => no event
+                                         C: the tip vertex interior and fresh), in index form over its OUTPUT; no S => no event;
+                                         the RUNS (one per start-face bit: a block of the history whose oldest corner is the
+                                         run's first corner, E :: no-E without S; an interior start face glued to it, its
+                                         vertices interior); different interior start faces share no vertex
       C01_ebsim_dec_step_E / _RL / _C    proved: decoder step lemmas, forward form (Ok of an explicit state)
       C01_ebsim_sim_step_E / _RL / _C    proved: preservation of the simulation relation [SIM] by E, R, L, C
       C01_ebsim_fan_lmc                  proved: at a C face the decoder's LeftMostCorner(Vertex(Next(active corner))) IS the corner
@@ -26,8 +29,10 @@
                                          under the premises of C09_ebenc_stream_never_rejected_by_guards_partial (size bound,
                                          guard G3) and [verts_fit] (vertex count bound; counting argument not done)
       C01_ebsim_roundtrip_ERL_core / _ERL  the sub-class E/R/L (strips, fans), corollaries
-    NOT proved: _no_event (S without split events), the general theorem; interior start faces (the classes require every start
-    configuration on a boundary). *)
+      C01_ebsim_dec_start_face / C01_ebsim_sim_step_start   proved: the interior start face (forward decoder lemma, SIM preserved;
+                                         the two LeftMostCorner lookups via the fan walk [fan_lmc_t]); the classes allow any
+                                         number of components, boundary and interior start configurations
+    NOT proved: _no_event (S without split events; the decoder's vertex compaction), the general theorem (split events). *)
 From Coq Require Import ZArith List Bool.
 From Draco Require Import Model.CornerTable Model.EbEncoder Model.EbTrace Proofs.CornerTable_proofs Proofs.EbEncoder_proofs.
 From Draco Require Import Proofs.EbTrace_proofs Proofs.EbSimEnc_proofs Proofs.EbSimDec_proofs Proofs.EbSim_proofs.
@@ -57,7 +62,10 @@ Theorem C01_ebsim_encoder_history : forall c2v opp nf nv niso ndeg o,
   length Y + count_occ bool_dec (o_bits o) true = length Q /\
   NoDup (faces Q) /\
   (forall k y, nth_error Y k = Some y -> efact c2v opp nf Q k (nth k Q 0) y) /\
-  (~ In 1%Z Y -> o_events o = []).
+  (~ In 1%Z Y -> o_events o = []) /\
+  RUNS opp (IFc' c2v opp nf) (rev (o_bits o)) (rev (skipn (length Y) Q)) (firstn (length Y) Q) Y /\
+  (forall m1 m2, m1 < m2 -> length Y + m2 < length Q -> forall x1 x2, x1 < 3 * nf -> x2 < 3 * nf ->
+     x1 / 3 = nth (length Y + m1) Q 0 / 3 -> x2 / 3 = nth (length Y + m2) Q 0 / 3 -> vtx c2v x1 <> vtx c2v x2).
 Proof. exact encode_facts_wf. Qed.
 Print Assumptions C01_ebsim_encoder_history.
 
@@ -173,6 +181,42 @@ Theorem C01_ebsim_sim_final : forall c2v opp nf, length c2v = 3 * nf -> opp_ok c
 Proof. exact sim_iso. Qed.
 Print Assumptions C01_ebsim_sim_final.
 
+Local Open Scope Z_scope.
+Theorem C01_ebsim_dec_start_face : forall NC maxv nfz s a, Edgebreaker_proofs.W NC maxv (Edgebreaker.nfaces s) s -> NC = 3 * nfz ->
+  Edgebreaker.nfaces s < nfz -> 0 <= a < 3 * Edgebreaker.nfaces s ->
+  let f := Edgebreaker.nfaces s in
+  let vn := Edgebreaker.c2v s (Edgebreaker.next_c a) in let ln := Edgebreaker.vc s vn in let b := Edgebreaker.next_c ln in
+  let vx := Edgebreaker.c2v s (Edgebreaker.next_c b) in let lx := Edgebreaker.vc s vx in let c := Edgebreaker.next_c lx in
+  0 <= ln < 3 * f -> 0 <= lx < 3 * f -> a <> b -> a <> c -> b <> c ->
+  Edgebreaker.copp s a = -1 -> Edgebreaker.copp s b = -1 -> Edgebreaker.copp s c = -1 ->
+  exists s', Edgebreaker.start_face NC maxv nfz s a = Edgebreaker.Ok s' /\
+    Edgebreaker.copp s' = Edgebreaker.upd (Edgebreaker.upd (Edgebreaker.upd (Edgebreaker.upd (Edgebreaker.upd (Edgebreaker.upd (Edgebreaker.copp s)
+        (3 * f) a) a (3 * f)) (3 * f + 1) b) b (3 * f + 1)) (3 * f + 2) c) c (3 * f + 2) /\
+    Edgebreaker.c2v s' = Edgebreaker.upd (Edgebreaker.upd (Edgebreaker.upd (Edgebreaker.c2v s) (3 * f) vx) (3 * f + 1)
+        (Edgebreaker.c2v s (Edgebreaker.next_c c))) (3 * f + 2) vn /\
+    Edgebreaker.nv s' = Edgebreaker.nv s /\ Edgebreaker.stack s' = Edgebreaker.stack s /\ Edgebreaker.vc s' = Edgebreaker.vc s /\
+    Edgebreaker.events s' = Edgebreaker.events s /\ Edgebreaker.splits s' = Edgebreaker.splits s /\
+    Edgebreaker.invalid s' = Edgebreaker.invalid s /\ Edgebreaker.nfaces s' = f + 1.
+Proof. exact dec_start_face. Qed.
+Print Assumptions C01_ebsim_dec_start_face.
+
+Theorem C01_ebsim_sim_step_start : forall c2v opp nf, length c2v = (3 * nf)%nat -> opp_ok c2v opp -> forall Q,
+  (forall j, (j < length Q)%nat -> (nth j Q 0%nat < 3 * nf)%nat /\ is_degenerated c2v (nth j Q 0%nat / 3) = false) ->
+  NoDup (map (fun c => (c / 3)%nat) Q) -> forall NC maxv k d d' ja jb rb jc rc,
+  (k < length Q)%nat -> (ja < k)%nat -> (jb < k)%nat -> (rb < 3)%nat -> (jc < k)%nat -> (rc < 3)%nat ->
+  SIM c2v opp Q k d -> Edgebreaker_proofs.W NC maxv (Z.of_nat k) d ->
+  let a := dco ja 0 in let b := dco jb rb in let c := dco jc rc in
+  Edgebreaker.copp d' = Edgebreaker.upd (Edgebreaker.upd (Edgebreaker.upd (Edgebreaker.upd (Edgebreaker.upd (Edgebreaker.upd (Edgebreaker.copp d)
+      (dco k 0) a) a (dco k 0)) (dco k 1) b) b (dco k 1)) (dco k 2) c) c (dco k 2) ->
+  Edgebreaker.c2v d' = Edgebreaker.upd (Edgebreaker.upd (Edgebreaker.upd (Edgebreaker.c2v d) (dco k 0) (Edgebreaker.c2v d (Edgebreaker.next_c b)))
+      (dco k 1) (Edgebreaker.c2v d (Edgebreaker.next_c c))) (dco k 2) (Edgebreaker.c2v d (Edgebreaker.next_c a)) ->
+  Edgebreaker.nfaces d' = Z.of_nat (S k) ->
+  opp_at opp (eco Q k 0) = Some (eco Q ja 0) -> opp_at opp (eco Q k 1) = Some (eco Q jb rb) -> opp_at opp (eco Q k 2) = Some (eco Q jc rc) ->
+  SIM c2v opp Q (S k) d'.
+Proof. exact SIM_start. Qed.
+Print Assumptions C01_ebsim_sim_step_start.
+Local Close Scope Z_scope.
+
 (** ** (5) the simulation along the trace, and the round trip for the class E / R / L *)
 Theorem C01_ebsim_trace_CERL : forall c2v opp nf nv niso ndeg o tr rm maxv,
   length c2v = 3 * nf -> opp_ok c2v opp -> (forall c, c < 3 * nf -> vtx c2v c < nv) -> one_fan c2v opp ->
@@ -183,7 +227,7 @@ Theorem C01_ebsim_trace_CERL : forall c2v opp nf nv niso ndeg o tr rm maxv,
   forall i cf, nth_error tr i = Some cf ->
     length (syms (cf_st cf)) = i /\
     exists d, Edgebreaker.sym_loop NC maxv rm (Z.of_nat ns) (firstn (ns - i) (rev (o_syms o))) 0 (Edgebreaker.init_st []) = Edgebreaker.Ok d /\
-              sim2 c2v opp (o_pcc o) ns NC maxv cf d.
+              sim2 c2v opp (o_pcc o) (rev (o_syms o)) ns NC maxv cf d.
 Proof. exact ebsim_trace_CERL. Qed.
 Print Assumptions C01_ebsim_trace_CERL.
 
@@ -252,12 +296,16 @@ Proof. vm_compute. reflexivity. Qed.
 Definition wheel6 := [(0,1,2);(0,2,3);(0,3,4);(0,4,5);(0,5,6);(0,6,1)].
 Example ebsim_CERL_wheel6 : in_class class_CERL wheel6 = Some (true, true, true) /\ in_class class_ERL wheel6 = Some (false, true, true).
 Proof. vm_compute. split; reflexivity. Qed.
-(** outside the classes proved so far (symbol S / interior start face): a 3x3 grid disc, a torus, a tetrahedron *)
+(** class C/E/R/L with an interior start face: closed surfaces - a tetrahedron, an octahedron *)
+Example ebsim_CERL_tetrahedron : in_class class_CERL [(0,1,2); (0,3,1); (1,3,2); (2,3,0)] = Some (true, true, true).
+Proof. vm_compute. reflexivity. Qed.
+Example ebsim_CERL_octahedron :
+  in_class class_CERL [(0,1,2);(0,2,3);(0,3,4);(0,4,1);(5,2,1);(5,3,2);(5,4,3);(5,1,4)] = Some (true, true, true).
+Proof. vm_compute. reflexivity. Qed.
+(** outside the classes proved so far (symbol S): a 3x3 grid disc, a torus *)
 Example ebsim_CERL_not_grid3x3 : in_class class_CERL (grid 3 3 false) = Some (false, true, true).
 Proof. vm_compute. reflexivity. Qed.
 Example ebsim_CERL_not_torus : in_class class_CERL (grid 3 3 true) = Some (false, true, true).
-Proof. vm_compute. reflexivity. Qed.
-Example ebsim_CERL_not_tetrahedron : in_class class_CERL [(0,1,2); (0,3,1); (1,3,2); (2,3,0)] = Some (false, true, true).
 Proof. vm_compute. reflexivity. Qed.
 
 (** the trace: its erasure is the big-step output, one configuration per symbol, configuration i = (corner i, i symbols so far,
